@@ -291,6 +291,7 @@ func (r *Run) Finish() int {
 	sort.Strings(sigs)
 
 	violations := 0
+	os.RemoveAll(filepath.Join(outDir(), "replays", r.ID)) // replay files always belong to the latest run
 	printedKnown := map[string]bool{}
 	var violationLines []string
 	replayDir := filepath.Join(outDir(), "replays", r.ID)
